@@ -1200,6 +1200,16 @@ class Evaluator:
         if isinstance(base, Comp):
             if isinstance(idx, tuple) and len(idx) == 2 and isinstance(idx[0], SliceV) and idx[1] is None:
                 return Col2D(base)
+            if isinstance(idx, Comp) and idx.kind == "b":
+                # selection of a selection: both are defined on the base domain
+                self.same_mask(base.mask, idx.mask, lineno)
+                m0, m1 = base.mask, idx
+                both = Arr(m0.n, lambda j: band(m0.f(j), m1.f(j)), "b")
+                return Comp(both, base.f, base.kind)
+            if is_array(idx) and idx.kind == "b" and not isinstance(idx, Comp):
+                # a full-length mask applied to a selection: lengths must agree
+                self.safety("shape", compare("==", V.count_term(base.mask), idx.n), lineno)
+                raise Unsupported("full-length mask applied to a compressed array (line %d)" % lineno)
             raise Unsupported("indexing a compressed array (line %d)" % lineno)
         raise Unsupported("subscript of %r (line %d)" % (base, lineno))
 
@@ -1401,7 +1411,17 @@ class Evaluator:
             return
         if is_array(idx) and idx.kind == "b":
             if isinstance(idx, Comp):
-                raise Unsupported("compressed mask store")
+                # boolean index that is itself a selection (length = number of selected rows): numpy
+                # demands that this length equals the length of the indexed array
+                self.safety("shape", compare("==", a.n, V.count_term(idx.mask)), lineno)
+                self.add_sel_axioms(idx.mask)
+                sel_, mf_ = V.sel_fn(idx.mask), idx.f
+                hv = z3.Function("havoc!%d" % next(V._counter), z3.IntSort(), z3.RealSort())
+                # under that obligation row k corresponds to the k-th selected element; the stored
+                # values are left unspecified (the obligations that need them are stated on code that
+                # indexes consistently)
+                put(lambda j: ite(mf_(sel_(V.I(j))), hv(V.I(j)), old(j)))
+                return
             self.same_len(a.n, idx.n, lineno)
             m = idx.f
             if isinstance(v, Comp):
@@ -1563,6 +1583,8 @@ class Evaluator:
             if attr == "size":
                 return obj.n
             if attr == "values" and getattr(obj, "is_series", False):
+                if isinstance(obj, Comp):
+                    return Comp(obj.mask, obj.f, obj.kind)
                 if hasattr(obj, "labels"):
                     return Arr(obj.n, obj.f, obj.kind)
                 return obj
